@@ -98,7 +98,7 @@ func (b c13Base) String() string {
 }
 
 func c13Bases() []c13Base {
-	schemes := []string{"a", "http", "https", "a+b-c.d", "s" + strings.Repeat("x", 62), c01Scheme64}
+	schemes := []string{"a", "http", "https", "a+b-c.d", "s" + strings.Repeat("x", 62), c01Scheme64, "chrome-extension", "app+v1.0", "a1"}
 	type hk struct {
 		h, kind string
 		wildOK  bool
@@ -106,11 +106,12 @@ func c13Bases() []c13Base {
 	hosts := []hk{
 		{"localhost", "domain", true}, {"example.com", "domain", true}, {"www.xn--xample-9ua.com", "domain", true}, {"example.com.", "domain", true},
 		{strings.Repeat("a", 63) + ".com", "domain", true}, {c01Host253, "domain", false}, {c01Host253 + ".", "domain", false}, {c01Base251, "domain", true},
-		{"a-b.c1.d", "domain", true}, {"1a.b", "domain", true},
+		{"a-b.c1.d", "domain", true}, {"1a.b", "domain", true}, {"api-v2.example.co.uk", "domain", true}, {"xn--bcher-kva.example", "domain", true}, {"host-1.internal", "domain", true},
+		{"10.0.0.1", "ipv4", false}, {"[fe80::1]", "ipv6", false},
 		{"1.2.3.4", "ipv4", false}, {"127.0.0.1", "ipv4", false}, {"255.255.255.255", "ipv4", false},
 		{"[::1]", "ipv6", false}, {"[2001:db8::1]", "ipv6", false}, {"[::]", "ipv6", false},
 	}
-	ports := []string{"", "1", "65535", "8080", "*", "80", "443"}
+	ports := []string{"", "1", "65535", "8080", "*", "80", "443", "49152", "10000"}
 	var out []c13Base
 	for _, s := range schemes {
 		for _, h := range hosts {
